@@ -200,7 +200,8 @@ public:
       bufferStart = bufferEnd = buffer ? buffer : (byte*)&_capacity;
     else
       bufferEnd -= size;
-    *bufferEnd = 0;
+    if(buffer || bufferStart == (byte*)&_capacity)
+      *bufferEnd = 0;
   }
 
   usize size() const {return bufferEnd - bufferStart;}
